@@ -15,6 +15,7 @@ def uid_of(arg):
 
 class Prop(BaseProp):
     ID = "C07"
+    PIPELINES = True      # a fixed share of the cases goes through cminx.main (-o and stdout) instead of the Documenter
     ANCHORS = ['cminx.rstwriter:get_indents', 'cminx.rstwriter:Directive.to_text', 'cminx.documentation_types:ClassDocumentation.process', 'cminx.documentation_types:MethodDocumentation.process', 'cminx.documentation_types:OptionDocumentation.process']
     LEVEL = "exploration"
     RULE = ("modules whose doccomment bodies are built from valid reST constructs (paragraphs, field lists, bullet/"
